@@ -57,7 +57,7 @@ def Opts.mockallValue (o : Opts) : Bool := o.mockall.getD false
 
 /-- `Opts::mockable` -/
 def Opts.mockable (o : Opts) : Bool :=
-  (o.unimock.isSome && o.mockApi.isSome) || o.mockall.isSome
+  (o.unimockValue && o.mockApi.isSome) || o.mockallValue
 
 /-- Split a token list at top-level commas (a list with n commas gives n+1 segments). -/
 def splitCommas : Toks → List Toks
